@@ -401,6 +401,13 @@ func chunkedRollback(backend string, flush int) string {
 	}
 	nodes1, fast1 := count()
 	extra := []string{"aaa-first", "key-01000-mid", "key-02299-x", "zzz-last-1", "zzz-last-2"}
+	// keys that have a key near a chunk boundary as a proper prefix (the wipe continues after the last key of a chunk)
+	for i := 1015; i <= 1030; i++ {
+		extra = append(extra, fmt.Sprintf("key-%05d/sub", i))
+	}
+	for i := 2040; i <= 2120; i += 2 {
+		extra = append(extra, fmt.Sprintf("key-%05d/sub", i))
+	}
 	for i := 0; i < 1500; i++ {
 		_, _ = t.Set([]byte(fmt.Sprintf("key-%05d", i)), []byte(fmt.Sprintf("b%d", i)))
 	}
